@@ -5,8 +5,9 @@ from pysym.harness import run_cases
 
 LEVEL = 'exploration'
 DEDUCTIVE = [('contracts.stereo', ('involution', 'translate_tetrahedron_sign/tetrahedron', 'CANARY'))]   # sign translation kernel (shared with C12)
-FINISH = dict(rule='see checks/b20.py RULE / run.bound entries', explanation='bounded stand-in (engine B) of the contracts of DESIGN §2 C20; '
-              'labelled bounded, never counted as proved', trusted_base=['CPython 3.12', 'oracles/*', 'RDKit where stated'])
+FINISH = dict(rule='deductive: one obligation per path / table key; B: see run.bound entries of checks/b20.py',
+              explanation='T: bond type maps mutually inverse on {1,2,3,4,8}; P: chirality tag translation kernel (sign translators, shared with C12); B: both bridge directions against RDKit',
+              trusted_base=['CPython', 'z3', 'pysym', 'RDKit (external oracle)'])
 replay = make_replay('C20')
 
 
